@@ -16,6 +16,8 @@ S = load()
 from serif.typing import DataType, infer_dtype  # noqa: E402
 
 PROPERTY = "C04"
+LEVEL_TEXT = 'Bounded-exhaustive for the lattice core (all sequences up to length 4 quick / 5 thorough over 15 value classes; all (dtype, value, value) promotion triples) plus random sequences up to length 30 / 200 with permutations and result columns of arithmetic, joins, aggregate, window, CSV.'
+LEVEL_NOTE = 'Order independence beyond the enumerated length rests on the exhaustively checked commutation law plus random search; kind of a value = exact Python type.'
 DESIGN_REF = "DESIGN.md §5 C04"
 RULE = ("exhaustive: every sequence over 15 value classes (one representative per kind incl. None) up to "
         "length 4 (thorough 5) and every (dtype, value[, value]) promotion pair/triple; random: lists up to "
